@@ -89,6 +89,7 @@ class Index:
         self.files = {}  # relpath -> (source, tree)
         self.classes = {}  # name -> [ClassInfo]
         self.module_funcs = {}  # (relpath, name) -> FuncInfo
+        self.module_consts = {}  # (relpath, name) -> value node of a module-level `NAME = <expr>` assigned exactly once
         self.parse_errors = []
         base = os.path.join(self.root, pkg)
         if not os.path.isdir(base):
@@ -120,6 +121,10 @@ class Index:
             self.classes.setdefault(node.name, []).append(ci)
         elif isinstance(node, (ast.FunctionDef, ast.AsyncFunctionDef)):
             self.module_funcs[(rel, node.name)] = FuncInfo(node.name, None, rel, node)
+        elif isinstance(node, ast.Assign) and len(node.targets) == 1 and isinstance(node.targets[0], ast.Name):
+            k = (rel, node.targets[0].id)
+            # a name bound twice at module level is not a constant
+            self.module_consts[k] = None if k in self.module_consts else node.value
         elif isinstance(node, (ast.If, ast.Try)):
             for sub in ast.iter_child_nodes(node):
                 if isinstance(sub, (ast.ClassDef, ast.FunctionDef)):
